@@ -162,6 +162,9 @@ func cmdWorker(args []string) int {
 			out.Viol = append(out.Viol, WorkerViol{V: v, Seed: caseSeed, Replay: path, Steps: caseSize(min), Orig: orig})
 			break
 		}
+		if hungWorker {
+			break
+		}
 	}
 	for d := range digests {
 		out.Digests = append(out.Digests, d)
